@@ -281,7 +281,7 @@ claim('C05',
       'widening to float, target height = max(target_elev, 0); T11 sweep skeleton on the interpreted sweep: node fields '
       'equal the event helpers applied to the matching event position / elevation (expectations built by interpreting '
       'the helpers symbolically), the 2*pi fix-ups, and insert / delete / query dispatched by event type with the '
-      'cell\'s distance key, bearing and centre gradient. NOT decided (declined): that the red-black tree with augmented maxima returns the true '
+      'cell\'s distance key, bearing and centre gradient; T9 the status tree\'s rotations, insert and delete write LEFT/RIGHT and PARENT links as matching pairs and the two fix-up routines are closed under the LEFT<->RIGHT mirror; T12 the query\'s early returns are taken only under running max > queried gradient (strict). NOT decided (declined): that the red-black tree with augmented maxima returns the true '
       'maximum gradient after every insert/delete order, hence that the sweep marks exactly the visible cells.',
       'Trusted: math.atan/atan2 for table values. The declined core needs balanced-tree invariants over unbounded '
       'insert/delete histories - no sound static argument in reach.',
